@@ -97,6 +97,13 @@ def _universes():
         names=[], prefixes=[[R('/a'), 'colon'], [R('/a/', n, '/'), 'angle']],
         ops=[A(0), A(1), A(2), A(3), ['rm', 0], ['rm', 1], ['rm', 2], ['rm', 3], ['hook', 0, 'H0'], ['unhook', 0],
              ['hook', 1, 'H1'], ['unhook', 1], ['hook', 2, 'H2'], ['unhook', 2], ['rmprefix', 0], ['rmprefix', 1]])
+    # a filtered wildcard node whose children are literals that start right after the wildcard (no '/' between):
+    # removing one of them must not merge the wildcard node with the child that is left
+    U['paramkids'] = dict(
+        rules=[R('/f/', n, '.j'), R('/f/', n, '/e'), R('/f/', n), R('/f/', n, '.k')],
+        hooks=[R('/f/', n)],
+        names=[], prefixes=[[R('/f/', n, '.'), 'angle']],
+        ops=[A(0), A(1), A(2), A(3), ['rm', 0], ['rm', 1], ['rm', 2], ['rm', 3], ['hook', 0, 'H0'], ['unhook', 0], ['rmprefix', 0]])
     # the universe of DESIGN.md (random walks)
     rules8 = [R('/ab'), R('/abc'), R('/abd'), R('/a/', x), R('/a/', x, '/b'), R('/a/', n), R('/a/b'), R('/')]
     ops = []
@@ -155,7 +162,7 @@ def _mkcase(uname, prefix, depth):
 
 def gen_cases(tier, seed):
     cases = []
-    scen = ['split', 'wild', 'hookonly', 'names', 'root', 'inseg']
+    scen = ['split', 'wild', 'hookonly', 'names', 'root', 'paramkids', 'inseg']
     for uname in scen:
         ops = UNIVERSES[uname]['ops']
         if tier == 'quick' and uname == 'inseg':
